@@ -32,6 +32,8 @@ def witness_for(name):
         return dict(n=[3], kind=[0], norm=[norm])
     if name.startswith("diag"):
         return dict(n=[int(name[4:])], kind=[5], norm=[0.7])
+    if name.startswith("ell"):
+        return dict(n=[3], kind=[4], norm=[700.0])
     if name.startswith("solve"):
         return dict(n=[3], kind=[0], norm=[0.2])
     if name.startswith("dispatch"):
@@ -71,6 +73,9 @@ def run(rep, tier):
         qs.append(l2.Query("dispatch.ell%d%d%d%d" % tuple(es), ct, ["MODE=5"] + ["TH%d=%s" % kv for kv in th.items()] +
                            ["ELL%d=%d" % (m, e) for m, e in zip((3, 5, 7, 9), es)], timeout=2 * tmo, unwind=16,
                            function=FN + "matrix_exponential[order selection]", where="src/MatrixExp.cpp"))
+    for mm in (3, 5, 7, 9, 13):
+        for cv in (-1, 0, 2):
+            qs.append(l2.Query("ell.m%d.ceil%d" % (mm, cv), ct, ["MODE=7", "MM=%d" % mm, "CEILV=%d" % cv], timeout=tmo, unwind=10, function=FN + "ell", where="src/MatrixExp.cpp"))
     qs.append(l2.Query("solve_P_Q", ct, ["MODE=6"], timeout=tmo, unwind=6, function=FN + "solve_P_Q", where="src/MatrixExp.cpp"))
     qs.append(l2.Query("guard", ct, ["MODE=4", "NE_T=%s" % m.group(1), "NE_ITMAX=%s" % m.group(2)], timeout=60,
                        function=FN + "one_normest_core[argument guards]", where="src/MatrixExp.cpp"))
@@ -92,7 +97,7 @@ def run(rep, tier):
                     rep.notes.append("native replay failed to run: %s" % ex)
             rep.violation(oid, path, nofail=not ok)
     rep.trust("Higham's backward-error theorem for [m/m] Pade scaling and squaring (accuracy given conformance) -- not formalised")
-    rep.trust("GSL LU factorisation/solve (assumed contract inside solve_P_Q), one_normest_core main iteration, one_normest_matrix_power/product, ell's estimate, "
+    rep.trust("GSL LU factorisation/solve (assumed contract inside solve_P_Q), one_normest_core main iteration, one_normest_matrix_power/product (the estimates ell and the order selection consume), "
               "gsl_complex_exp, gsl_blas_zgemm: outside the contracts; zgemm/exp/solve are replaced by their mathematical contracts")
     rep.assume("scalar homomorphism: pade<m> and the order-13 path use only ring operations on {A, id, A2, A4, A6} through gsl_matrix_complex_mul/add, "
                "zgemm, scale, memcpy (the helpers' extracted bodies are executed on 1x1 complex matrices); a defect that depends on n>1 indexing inside "
